@@ -255,6 +255,11 @@ def run(chk):
               "text": {"pre": name, "post": str(blocks)}}
         chk.add_event(ev)
     chk.judge(chunk=200)
+    if chk.tier != "quick":
+        # system-level workflows (spec/Pipeline.tla): the steps that belong
+        # to this property's operations
+        from .pipeline import run_pipelines
+        run_pipelines(chk, "C15")
     return chk.finish(
         rule="seeded sums of ERIs, t-amplitudes, symbolic denominators, "
              "deltas and tensors with unknown spin structure; every (sampled) "
